@@ -326,6 +326,12 @@ prop("C14", ["l2", "conc"], "exploration",
 prop("C15", ["l2", "conc"], "exploration",
      CONC_RULE + L2_RULE + "Focus: global and async functions (custom names included): stats_registry::get(name) must equal the model's hit/miss counters after every call, invalidation and reset; a reset of one name must leave the others unchanged. Non-trivial = a comparison; distinct = distinct (function, hits, misses) triples.",
      COMMON_ASSUME, ("C15", "stats_comparisons"))
+prop("C20", ["l2"], "exploration",
+     L2_RULE + "Focus: #[cache_async] functions whose bodies contain 1-3 await points (gates the harness opens one at a time). The generated future is polled by hand: at every Pending the polling thread's stack of held locks "
+     "(hooked lock_api: parking_lot and DashMap shard locks) must be empty and the cache listing / statistics must equal a model in which the call has only performed its lookup; while it is suspended other calls (same and different "
+     "arguments, on the same and on other threads), invalidations and stats operations run to completion; the call is then resumed (must store normally: listing, stats, predicate consulted once) or dropped (cache and statistics unchanged). "
+     "Non-trivial = a suspension observed; distinct = distinct (function, await point index, resume/drop/pending, interleaved operations class).",
+     COMMON_ASSUME + ["an operation that could not complete while a call is suspended would show as a lock held at Pending (checked before anything else runs) - a hang itself would only trip the watchdog (inconclusive)"], ("C20", "suspensions_observed"))
 prop("C04", ["l1", "l2"], "exploration",
      L1_RULE + L2_RULE + "Non-trivial = a store that overflows the entry limit; distinct = distinct (configuration, number of residents, replacing?, recency/insertion order shape, size class) tuples among those. At macro level the histories include conditional and group invalidations and expiry before the overflows.",
      COMMON_ASSUME, ("C04", "overflowing_stores"))
